@@ -11,7 +11,7 @@ PLAN = {
     "C03": {"drivers": ["classes"], "models": ["class"]},
     "C04": {"drivers": ["icase-words", "icase-sweep"], "models": ["fold"]},
     "C05": {"drivers": ["small-rep", "repeats"], "models": ["rep", "repconv"]},
-    "C06": {"drivers": ["presentation", "char-classes", "front:hist"], "models": ["lang", "verbose"]},
+    "C06": {"drivers": ["presentation", "char-classes", "front:hist"], "models": ["lang", "verbose", "print"]},
     "C07": {"drivers": ["lattice", "char-classes", "front:hist", "front:large"], "models": ["builder-rust"]},
     "C08": {"models": ["pipeline"], "drivers": ["small-anchors", "anchors"]},
     "C09": {"drivers": ["class-sweep"], "models": ["class"]},
@@ -20,7 +20,7 @@ PLAN = {
     "C12": {"drivers": ["front:cli"], "models": ["front-laws"]},
     "C13": {"drivers": ["thresholds", "front:hist"], "models": ["rep", "repconv"]},
     "C14": {"drivers": ["front:py"], "models": ["builder-py", "front-laws"]},
-    "C15": {"drivers": ["color"], "models": ["front-laws"]},
+    "C15": {"drivers": ["color"], "models": ["front-laws", "print"]},
     "C16": {"models": ["pipeline", "rep"], "drivers": ["small", "stages"]},
     "C17": {"drivers": ["front:wasm"], "models": ["builder-wasm"]},
 }
@@ -161,7 +161,7 @@ def model_repconv(res, known, tier, seed):
     replay_with_drift(res, known, list(plans.values()), tier, seed, "repconv")
 
 
-def replay_with_drift(res, known, plist, tier, seed, label):
+def replay_with_drift(res, known, plist, tier, seed, label, render=lambda x: x):
     """spec -> code: run every predicted behaviour on the real library (its trace is validated by the monitor) and
     measure Level-2 drift: does the transcription print exactly the string the code prints?
     plist: [{"tcs": [...], "runs": [{"cfg": {...}}...], "pred": [predicted output per run]}]"""
@@ -171,7 +171,7 @@ def replay_with_drift(res, known, plist, tier, seed, label):
     planf = os.path.join(d, "plans.ndjson")
     with open(planf, "w") as f:
         for p in plist:
-            f.write(json.dumps({"tcs": p["tcs"], "runs": p["runs"], "tag": "mc-replay-" + label}) + "\n")
+            f.write(json.dumps({"tcs": p["tcs"], "runs": p["runs"], "tag": "mc-replay-" + label, "cps": bool(p.get("cps"))}) + "\n")
     os.environ["VERIF_KEEP"] = "1"
     try:
         vlib.run_driver(res, known, "file:" + planf, tier, seed)
@@ -194,7 +194,7 @@ def replay_with_drift(res, known, plist, tier, seed, label):
             c = norm(r["cfg"])
             if c in wanted:
                 want = p["pred"][wanted.index(c)]
-                if r.get("out") == want:
+                if r.get("out") is not None and render(r["out"]) == want:
                     same += 1
                 else:
                     diff += 1
@@ -420,7 +420,34 @@ def model_verbose(res, known, tier, seed):
                        "invariants": ["Exact", "RawIsWrong"], "negative_control": "Mode=widen refuted by TLC"})
 
 
-MODELS = {"verbose": model_verbose, "repconv": model_repconv, "lang": model_lang, "fold": model_fold, "front-laws": model_front_laws, "class": model_class, "rep": model_rep, "pipeline": model_pipeline, "builder-rust": model_builder("rust"), "builder-py": model_builder("py"),
+def model_print(res, known, tier, seed):
+    """MC_Print: the complete printer (verbose layout, capturing groups, colour) on the Level-2 pipeline."""
+    consts = {"MaxLen": 3, "MaxSize": 3 if tier == "thorough" else 2}
+    inv = ["C15", "C06Layout", "OldPrinter", "Replay"]
+    m = vlib.run_model("Print", constants=consts, invariants=inv, tag="print", workers=8)
+    if m["violated"]:
+        raise ToolError("bounded model print violates %s" % m["violated"])
+    beh = [o for o in m["objs"] if o.get("replay") == "print"]
+    res.states += m["states"]
+    res.transitions += m["transitions"]
+    res.models.append({"model": "MC_Print", "constants": consts, "states": m["states"], "transitions": m["transitions"],
+                       "behaviours": len(beh), "invariants": inv})
+    plans = {}
+    for o in beh:
+        tcs = sorted(o["tcs"].values())
+        p = plans.setdefault(json.dumps(tcs), {"tcs": tcs, "runs": [], "pred": []})
+        cfg = {k: o[k] for k in ("verbose", "capture", "nostart", "noend", "rep")}
+        p["runs"].append({"cfg": dict(cfg)})
+        p["pred"].append(o["plain"])
+        p["runs"].append({"cfg": dict(cfg, color=True)})
+        p["pred"].append(o["colored"])
+    for p in plans.values():
+        p["cps"] = True
+    replay_with_drift(res, known, list(plans.values()), tier, seed, "print",
+                      render=lambda x: x.replace("\x1b", "\\e").replace("\n", "\\n"))
+
+
+MODELS = {"print": model_print, "verbose": model_verbose, "repconv": model_repconv, "lang": model_lang, "fold": model_fold, "front-laws": model_front_laws, "class": model_class, "rep": model_rep, "pipeline": model_pipeline, "builder-rust": model_builder("rust"), "builder-py": model_builder("py"),
           "builder-wasm": model_builder("wasm")}
 
 
